@@ -289,3 +289,188 @@ def layoutOf (seed : Nat) : Nat → Nat := fun i =>
   s / 2 ^ 35
 
 end Driver.Gen
+
+namespace Driver.Gen
+
+/-! ### single semantic-error injections (C13) -/
+
+def setAt {α} (l : List α) (i : Nat) (f : α → α) : List α :=
+  l.zipIdx.map (fun (a, j) => if j == i then f a else a)
+
+def defName : SrcDef → Option Str
+  | .enm e => some e.name | .st s => some s.name | .msg m => some m.name | .un u => some u.name | _ => none
+
+def renameDef (d : SrcDef) (n : Str) : SrcDef :=
+  match d with
+  | .enm e => .enm { e with name := n } | .st s => .st { s with name := n }
+  | .msg m => .msg { m with name := n } | .un u => .un { u with name := n } | d => d
+
+def idxWhere {α} (l : List α) (p : α → Bool) : List Nat := (l.zipIdx.filter (fun (a, _) => p a)).map (·.2)
+
+/-- Replace the innermost simple type by `n`, or (when `key`) a map key. -/
+partial def poisonFT (ft : FT) (n : Str) : FT :=
+  match ft with
+  | .simple _ => .simple n
+  | .arr e => .arr (poisonFT e n)
+  | .map k v => .map k (poisonFT v n)
+
+def classes : List String := ["dupDefName", "primitiveName", "dupConstName", "dupStructField", "dupMessageField",
+  "dupOptionName", "dupOptionValue", "dupOpCode", "undefStructField", "undefMessageField", "undefUnionBranchField",
+  "undefMapKey", "selfStruct", "chainStruct", "dupMsgIndex", "msgIndexZero", "dupUnionIndex", "enumOutOfRange",
+  "flagsOutOfRange", "constNotAssignable", "constOutOfRange", "okRecursionViaMessage", "okRecursionViaUnion"]
+
+/-- Inject one error of class `cls` into a valid source; `none` when the source has no applicable site. -/
+def inject (cls : String) (src : SrcFile) : M (Option SrcFile) := do
+  let named := idxWhere src (fun d => (defName d).isSome)
+  let structs := idxWhere src (fun d => match d with | .st s => s.fields.length ≥ 1 | _ => false)
+  let msgs := idxWhere src (fun d => match d with | .msg m => m.fields.length ≥ 1 | _ => false)
+  let bad := strOf "Undefined9"
+  match cls with
+  | "dupDefName" =>
+    if named.length < 2 then return none
+    let i ← pickL named
+    let j ← pickL (named.filter (· != i))
+    let n := ((src.getD j default) |> defName).getD []
+    pure (some (setAt src i (fun d => renameDef d n)))
+  | "primitiveName" =>
+    if named.isEmpty then return none
+    let i ← pickL named
+    let p ← pickL prims
+    pure (some (setAt src i (fun d => renameDef d (strOf p))))
+  | "dupConstName" =>
+    let cs := idxWhere src (fun d => match d with | .con _ => true | _ => false)
+    if cs.length < 2 then return none
+    let i ← pickL cs
+    let j ← pickL (cs.filter (· != i))
+    let n := match src.getD j default with | .con c => c.name | _ => []
+    pure (some (setAt src i (fun d => match d with | .con c => .con { c with name := n } | d => d)))
+  | "dupStructField" =>
+    let ss := idxWhere src (fun d => match d with | .st s => s.fields.length ≥ 2 | _ => false)
+    if ss.isEmpty then return none
+    let i ← pickL ss
+    pure (some (setAt src i (fun d => match d with
+      | .st s => .st { s with fields := setAt s.fields 1 (fun f => { f with name := (s.fields.headD default).name }) }
+      | d => d)))
+  | "dupMessageField" =>
+    let ms := idxWhere src (fun d => match d with | .msg m => m.fields.length ≥ 2 | _ => false)
+    if ms.isEmpty then return none
+    let i ← pickL ms
+    pure (some (setAt src i (fun d => match d with
+      | .msg m => .msg { m with fields := setAt m.fields 1 (fun p => (p.1, { p.2 with name := (m.fields.headD default).2.name })) }
+      | d => d)))
+  | "dupOptionName" | "dupOptionValue" =>
+    let es := idxWhere src (fun d => match d with | .enm e => e.options.length ≥ 2 && !e.flags | _ => false)
+    if es.isEmpty then return none
+    let i ← pickL es
+    pure (some (setAt src i (fun d => match d with
+      | .enm e =>
+        let o0 := e.options.headD default
+        .enm { e with options := setAt e.options 1 (fun o => if cls == "dupOptionName" then { o with name := o0.name } else { o with expr := o0.expr }) }
+      | d => d)))
+  | "dupOpCode" =>
+    let rs := idxWhere src (fun d => match d with | .st _ | .msg _ | .un _ => true | _ => false)
+    if rs.length < 2 then return none
+    let i ← pickL rs
+    let j ← pickL (rs.filter (· != i))
+    let oc := some (strOf "0x7777")
+    let set := fun (d : SrcDef) => match d with
+      | .st s => SrcDef.st { s with opCode := oc } | .msg m => .msg { m with opCode := oc }
+      | .un u => .un { u with opCode := oc } | d => d
+    pure (some (setAt (setAt src i set) j set))
+  | "undefStructField" =>
+    if structs.isEmpty then return none
+    let i ← pickL structs
+    pure (some (setAt src i (fun d => match d with
+      | .st s => .st { s with fields := setAt s.fields 0 (fun f => { f with ft := poisonFT f.ft bad }) } | d => d)))
+  | "undefMessageField" =>
+    if msgs.isEmpty then return none
+    let i ← pickL msgs
+    pure (some (setAt src i (fun d => match d with
+      | .msg m => .msg { m with fields := setAt m.fields 0 (fun p => (p.1, { p.2 with ft := poisonFT p.2.ft bad })) } | d => d)))
+  | "undefUnionBranchField" =>
+    let us := idxWhere src (fun d => match d with
+      | .un u => u.fields.any (fun uf => match uf.body with | .st s => s.fields.length ≥ 1 | .msg m => m.fields.length ≥ 1)
+      | _ => false)
+    if us.isEmpty then return none
+    let i ← pickL us
+    pure (some (setAt src i (fun d => match d with
+      | .un u => .un { u with fields := u.fields.map (fun uf => { uf with body := match uf.body with
+          | .st s => .st { s with fields := setAt s.fields 0 (fun f => { f with ft := poisonFT f.ft bad }) }
+          | .msg m => .msg { m with fields := setAt m.fields 0 (fun p => (p.1, { p.2 with ft := poisonFT p.2.ft bad })) } }) }
+      | d => d)))
+  | "undefMapKey" =>
+    if structs.isEmpty then return none
+    let i ← pickL structs
+    pure (some (setAt src i (fun d => match d with
+      | .st s => .st { s with fields := setAt s.fields 0 (fun f => { f with ft := .map bad (.simple (strOf "int32")) }) } | d => d)))
+  | "selfStruct" =>
+    let ss := idxWhere src (fun d => match d with | .st _ => true | _ => false)
+    if ss.isEmpty then return none
+    let i ← pickL ss
+    pure (some (setAt src i (fun d => match d with
+      | .st s => .st { s with fields := s.fields ++ [{ ft := .simple s.name, name := strOf "selfRef" }] } | d => d)))
+  | "chainStruct" =>
+    let ss := idxWhere src (fun d => match d with | .st _ => true | _ => false)
+    if ss.length < 2 then return none
+    let i := ss.headD 0
+    let j := (ss.drop 1).headD 0
+    let ni := ((src.getD i default) |> defName).getD []
+    let nj := ((src.getD j default) |> defName).getD []
+    let add := fun (n : Str) (d : SrcDef) => match d with
+      | .st s => SrcDef.st { s with fields := s.fields ++ [{ ft := .simple n, name := strOf "chainRef" }] } | d => d
+    pure (some (setAt (setAt src i (add nj)) j (add ni)))
+  | "dupMsgIndex" | "msgIndexZero" =>
+    let ms := idxWhere src (fun d => match d with | .msg m => m.fields.length ≥ 2 | _ => false)
+    if ms.isEmpty then return none
+    let i ← pickL ms
+    pure (some (setAt src i (fun d => match d with
+      | .msg m => .msg { m with fields := setAt m.fields 1 (fun p => ((if cls == "msgIndexZero" then 0 else (m.fields.headD default).1), p.2)) }
+      | d => d)))
+  | "dupUnionIndex" =>
+    let us := idxWhere src (fun d => match d with | .un u => u.fields.length ≥ 2 | _ => false)
+    if us.isEmpty then return none
+    let i ← pickL us
+    pure (some (setAt src i (fun d => match d with
+      | .un u => .un { u with fields := setAt u.fields 1 (fun uf => { uf with idx := (u.fields.headD default).idx }) }
+      | d => d)))
+  | "enumOutOfRange" | "flagsOutOfRange" =>
+    let wantFlags := cls == "flagsOutOfRange"
+    let es := idxWhere src (fun d => match d with
+      | .enm e => e.options.length ≥ 1 && e.flags == wantFlags && !((baseInfo e.base).2.1 == 64 && (baseInfo e.base).2.2)
+      | _ => false)
+    if es.isEmpty then return none
+    let i ← pickL es
+    pure (some (setAt src i (fun d => match d with
+      | .enm e =>
+        let (_, bits, unsigned) := baseInfo e.base
+        let big : Nat := if unsigned then 2 ^ bits else 2 ^ (bits - 1)
+        if bits == 64 && unsigned then .enm e
+        else .enm { e with options := setAt e.options 0 (fun o => { o with expr := .lit (strOf (toString big)) }) }
+      | d => d)))
+  | "constNotAssignable" | "constOutOfRange" =>
+    let cs := idxWhere src (fun d => match d with
+      | .con c => (isUintName c.ty || isIntName c.ty) && (cls == "constNotAssignable" || ((decodeInteger c.ty).getD (32, true)).1 != 64)
+      | _ => false)
+    if cs.isEmpty then return none
+    let i ← pickL cs
+    pure (some (setAt src i (fun d => match d with
+      | .con c =>
+        if cls == "constNotAssignable" then .con { c with lit := strOf "\"text\"" }
+        else
+          let (bits, _) := (decodeInteger c.ty).getD (32, true)
+          if bits == 64 then .con c else .con { c with lit := strOf (toString (2 ^ bits)) }
+      | d => d)))
+  | "okRecursionViaMessage" =>
+    -- struct S { M m; }  message M { 1 -> S s; } : can terminate, must be accepted
+    let s := strOf "RecS"; let m := strOf "RecM"
+    pure (some (src ++ [
+      SrcDef.st { name := s, fields := [{ ft := .simple m, name := strOf "m" }] },
+      SrcDef.msg { name := m, fields := [(1, { ft := .simple s, name := strOf "s" })] }]))
+  | "okRecursionViaUnion" =>
+    let s := strOf "RecS2"; let u := strOf "RecU"
+    pure (some (src ++ [
+      SrcDef.st { name := s, fields := [{ ft := .arr (.simple u), name := strOf "u" }] },
+      SrcDef.un { name := u, fields := [{ idx := 1, body := .st { name := strOf "RecB", fields := [{ ft := .simple s, name := strOf "s" }] } }] }]))
+  | _ => pure none
+
+end Driver.Gen
